@@ -1,7 +1,9 @@
 #!/usr/bin/env python3
 """merge a JSON fragment {"Cxx": {...}} from stdin into props.json (deep-merge at the property level), regenerate MANIFEST"""
-import json, sys, os, subprocess
+import json, sys, os, subprocess, fcntl
 V = os.path.dirname(os.path.dirname(os.path.abspath(__file__)))
+_lock = open(os.path.join(V, ".props.lock"), "w")
+fcntl.flock(_lock, fcntl.LOCK_EX)
 p = json.load(open(os.path.join(V, "props.json")))
 frag = json.load(sys.stdin)
 for k, v in frag.items():
